@@ -236,4 +236,78 @@ example :
     ((step (AState.init 1) (.recover a [t])).1.acct.map (fun a => (a.state, a.outpoint))) = some (.pendingOpen, ⟨1, 1⟩) ∧
     ((step (AState.init 1) (.recover a [])).1.acct.map (·.state)) = some .canceled := by decide
 
+/-! ## more about the key sweep -/
+
+/-- **C20 / sweep recovers only what was reported**: every recovered entry `(j, resOnly)` names a key index
+inside the swept range whose answer really was "reservation only" (`resOnly = true`) or "full account"
+(`resOnly = false`) – the sweep never invents an account for a key the auctioneer does not know. -/
+theorem C20_sweep_sound (c i : Nat) (l : List Ans) :
+    ∀ p ∈ sweep c i l, i ≤ p.1 ∧ l[p.1 - i]? = some (if p.2 then Ans.reservation else Ans.full) := by
+  induction l generalizing c i with
+  | nil => intro p h; simp [sweep] at h
+  | cons a r ih =>
+    intro p hp
+    have step : ∀ c', p ∈ sweep c' (i + 1) r →
+        i ≤ p.1 ∧ (a :: r)[p.1 - i]? = some (if p.2 then Ans.reservation else Ans.full) := by
+      intro c' h
+      obtain ⟨h1, h2⟩ := ih c' (i + 1) p h
+      refine ⟨by omega, ?_⟩
+      have : p.1 - i = (p.1 - (i + 1)) + 1 := by omega
+      rw [this, List.getElem?_cons_succ]; exact h2
+    cases a with
+    | reservation =>
+      simp only [sweep, List.mem_cons] at hp
+      rcases hp with rfl | hp
+      · simp
+      · exact step c hp
+    | full =>
+      simp only [sweep, List.mem_cons] at hp
+      rcases hp with rfl | hp
+      · simp
+      · exact step 0 hp
+    | unknown =>
+      simp only [sweep] at hp
+      split at hp
+      · simp at hp
+      · exact step (c + 1) hp
+
+/-- **C20 / no key is recovered twice**: the recovered key indices are strictly increasing. -/
+theorem C20_sweep_increasing (c i : Nat) (l : List Ans) :
+    (sweep c i l).Pairwise (fun a b => a.1 < b.1) := by
+  induction l generalizing c i with
+  | nil => simp [sweep]
+  | cons a r ih =>
+    have lb : ∀ c' p, p ∈ sweep c' (i + 1) r → i < p.1 := fun c' p h => by
+      have := (C20_sweep_sound c' (i + 1) r p h).1; omega
+    cases a with
+    | reservation => simp only [sweep, List.pairwise_cons]; exact ⟨fun p h => lb c p h, ih c (i + 1)⟩
+    | full => simp only [sweep, List.pairwise_cons]; exact ⟨fun p h => lb 0 p h, ih 0 (i + 1)⟩
+    | unknown =>
+      simp only [sweep]; split
+      · exact List.Pairwise.nil
+      · exact ih (c + 1) (i + 1)
+
+/-- **C20 / answers beyond the stopping point are irrelevant**: what the sweep recovered from the answers seen so
+far stays recovered whatever the auctioneer answers for later keys. -/
+theorem C20_sweep_prefix (c i : Nat) (l l' : List Ans) : sweep c i l <+: sweep c i (l ++ l') := by
+  induction l generalizing c i with
+  | nil => simp [sweep]
+  | cons a r ih =>
+    cases a with
+    | reservation => simp only [sweep, List.cons_append, List.cons_prefix_cons, true_and]; exact ih c (i + 1)
+    | full => simp only [sweep, List.cons_append, List.cons_prefix_cons, true_and]; exact ih 0 (i + 1)
+    | unknown =>
+      simp only [sweep, List.cons_append]; split
+      · exact List.prefix_refl _
+      · exact ih (c + 1) (i + 1)
+
+/-- **C20 / the sweep stops for good**: once more than `MaxUnusedAccountKeyLookup` consecutive unknown keys
+(reservation-only answers in between do not count as found) were seen, nothing after them is recovered –
+the miss counter never decreases except at a full account. -/
+theorem C20_sweep_stops (c i : Nat) (l : List Ans)
+    (h : c + 1 > Lifecycle.maxUnusedAccountKeyLookup) : sweep c i (Ans.unknown :: l) = [] := by
+  simp [sweep, h]
+
+example : (2, false) ∈ sweep 0 0 [.unknown, .reservation, .full] := by decide
+
 end Pool.C20
